@@ -245,3 +245,13 @@ def _(u):
 @unit("pctsp.rowlocal.reward", file=F, func="PCTSPEnv._get_reward", props=("C04",))
 def _(u):
     _rl(u, "reward")
+
+
+@unit("pctsp.reward.padding", file=F, func="PCTSPEnv._get_reward", props=("C04", "C03"))
+def _(u):
+    from .envlib import reward_pad_invariant
+
+    N = u.dim("N")
+    reward_pad_invariant(u, F, "PCTSPEnv._get_reward", "PCTSPEnv",
+                         lambda u, B: u.td(B, locs=((B, N + 1, 2), "f"), penalty=((B, N + 1), "f")), N + 1,
+                         extra_requires=lambda u, td, B: u.forall((B,), lambda b: td["penalty"].at(b, 0) == 0))
